@@ -234,6 +234,11 @@ pub fn add_spec_contents(pool: &mut Pool, rng: &mut Rng, per_len: usize, canonic
                     for opt in [Some(true), Some(false), None] {
                         let mut g = Gen { rng, len, violate: None, counter: 0, opt_all: opt, ccy: None };
                         let c = g.make(alt);
+                        // contents that would confuse the block structure at message level are repaired rather than dropped (dropping
+                        // them removed nearly every maximum-length content: 170 random x-characters almost always contain a brace):
+                        // braces become parentheses, a line must not start with ':' or '-'
+                        let c: String = c.replace('{', "(").replace('}', ")").split('\n')
+                            .map(|l| if l.starts_with(':') || l.starts_with('-') { format!("X{}", &l[1..]) } else { l.to_string() }).collect::<Vec<_>>().join("\n");
                         // keep out contents that would confuse the block structure at message level (a line starting with ':' or '-')
                         if c.is_empty() || c.split('\n').any(|l| l.starts_with(':') || l.starts_with('-')) || c.contains("-}") || c.contains('{') || c.contains('}') {
                             continue;
